@@ -252,27 +252,41 @@ Proof. intros A B o f b H. destruct o; cbn in H; try discriminate. eauto. Qed.
 Lemma ok_inj : forall A (a b : A), Ok a = Ok b -> a = b.
 Proof. intros A a b H. now inversion H. Qed.
 
+Lemma parse_headers_wf_aux : forall h st2 a v,
+  m_gen st2 = [] ->
+  gen_wf allowed_keys (copy_common false (common_headers false) h (set_gen (set_addrs st2 a) hdr_date v)).
+Proof.
+  intros h st2 a v Hg. apply copy_common_wf.
+  - apply set_gen_wf; [|now left]. split; cbn [set_addrs m_gen]; rewrite Hg; [constructor | intros x []].
+  - unfold common_headers, allowed_keys. intros k Hk. now right.
+Qed.
+
+Lemma parse_ct_charset_gen : forall h st st2,
+  m_gen st = [] -> parse_ct_charset false h st = Ok st2 -> m_gen st2 = [].
+Proof.
+  intros h st st2 Hg H2. unfold parse_ct_charset in H2.
+  destruct (is_empty (hget h hdr_content_type)).
+  - apply ok_inj in H2. now subst.
+  - apply bind_ok_inv in H2. destruct H2 as [[ct opt] [_ H2]]. cbn [andb] in H2.
+    apply ok_inj in H2. subst st2. destruct (map_get opt lit_charset); exact Hg.
+Qed.
+
+Lemma parse_encoding_gen : forall h st, m_gen (parse_encoding h st) = m_gen st.
+Proof.
+  intros h st. unfold parse_encoding.
+  destruct (is_empty _); [reflexivity|]. destruct (eqfold _ enc_qp); [reflexivity|].
+  destruct (eqfold _ enc_b64); reflexivity.
+Qed.
+
 Lemma parse_headers_wf : forall h f t c b d st',
   parse_headers false h f t c b d st_init = Ok st' -> gen_wf allowed_keys st'.
 Proof.
   intros h f t c b d st' H. unfold parse_headers in H.
   apply bind_ok_inv in H. destruct H as [st2 [H2 H]].
-  destruct (aerr f || aerr t || aerr c || aerr b)%bool; [discriminate|].
-  assert (H' : exists v, st' = copy_common false (common_headers false) h
-                 (set_gen (set_addrs st2 (mka (firstn 1 (alist f)) (alist t) (alist c) (alist b))) hdr_date v)).
-  { destruct d; [eexists; now apply ok_inj in H | discriminate | eexists; now apply ok_inj in H]. }
-  clear H. destruct H' as [v ->].
   assert (Hg : m_gen st2 = []).
-  { unfold parse_ct_charset in H2. destruct (is_empty (hget h hdr_content_type)).
-    - inversion H2; subst. unfold parse_encoding.
-      repeat match goal with |- context [if ?c then _ else _] => destruct c end; reflexivity.
-    - apply bind_ok_inv in H2. destruct H2 as [[ct opt] [_ H2]]. cbn [andb] in H2.
-      inversion H2; subst. unfold parse_encoding.
-      destruct (map_get opt lit_charset);
-      repeat match goal with |- context [if ?c then _ else _] => destruct c end; reflexivity. }
-  apply copy_common_wf.
-  - apply set_gen_wf; [|now left]. split; rewrite Hg; [constructor | intros x []].
-  - unfold common_headers, allowed_keys. intros k Hk. now right.
+  { eapply parse_ct_charset_gen; [|exact H2]. now rewrite parse_encoding_gen. }
+  destruct (aerr f || aerr t || aerr c || aerr b)%bool; [discriminate|].
+  destruct d as [| |fd]; [|discriminate|]; apply ok_inj in H; subst st'; now apply parse_headers_wf_aux.
 Qed.
 
 (* ---------- the body parser never touches the generic headers ---------- *)
